@@ -114,8 +114,25 @@ func (r *runner) compareRecord(path string, rec *auditRec, where string, o *Obs,
 	if !sameMap(rec.OutFiles, t.Outs) {
 		add("audit-outfiles", fmt.Sprintf("%s: OutFiles %v, expected %v", where, rec.OutFiles, t.Outs))
 	}
-	if want := r.expectedTags(path, memo); !sameMap(rec.Tags, want) && !r.wants("c10-tags-subset") {
-		add("audit-tags", fmt.Sprintf("%s: Tags %v, expected %v", where, rec.Tags, want))
+	// "tags attached upstream are present on every downstream record": the expected tags must be
+	// there (extra tags are not judged here; a nested record that differs from the file's own
+	// record on disk is caught by the differential comparison below)
+	for k, v := range r.expectedTags(path, memo) {
+		if rec.Tags[k] != v {
+			add("audit-tags", fmt.Sprintf("%s: tag %s=%s attached upstream is missing (Tags %v)", where, k, v, rec.Tags))
+		}
+	}
+	// "it contains the full audit record of every input file": a nested record equals the record
+	// that accompanies that file on disk
+	if strings.Contains(where, " <- ") {
+		if a, ok := o.Tree[path+".audit.json"]; ok {
+			var disk auditRec
+			if json.Unmarshal([]byte(a), &disk) == nil {
+				if disk.ProcessName != rec.ProcessName || disk.Command != rec.Command || !sameMap(disk.Params, rec.Params) || !sameMap(disk.Tags, rec.Tags) || !sameMap(disk.OutFiles, rec.OutFiles) {
+					add("audit-nested-differs", fmt.Sprintf("%s: the nested record differs from %s.audit.json (nested tags %v / params %v, on disk tags %v / params %v)", where, path, rec.Tags, rec.Params, disk.Tags, disk.Params))
+				}
+			}
+		}
 	}
 	if rec.FinishTime.Before(rec.StartTime) {
 		add("audit-time", where+": FinishTime before StartTime")
